@@ -1098,7 +1098,7 @@ def main(tier, replay=None):
             # same process: the past hashes are still known); the writer error must be reported whatever the cache depth
             try:
                 skc = []
-                for (snd, snp, snblk, scaches) in ([(2, 1, 8, [3, 8])] if quick else [(2, 1, 8, [1, 2, 3, 8, 128]), (3, 2, 12, [3, 8]), (2, 1, 140, [128])]):
+                for (snd, snp, snblk, scaches) in ([(2, 1, 8, [3, 8])] if quick else [(2, 1, 8, [1, 3, 4, 8, 128]), (3, 2, 12, [3, 8]), (2, 1, 140, [128])]):
                     scn3 = Scn(binary, shim, 'touchskip', snd, snp, nblk=snblk)
                     R3 = Runner(chk, scn3, model, oneshot=True)
                     nwr = {lev: len(w) for lev, w in R3.ref.written.items()}
@@ -1115,7 +1115,7 @@ def main(tier, replay=None):
                         total[k] += R3.stats[k]
                     for k, v in R3.stats['lag_seen'].items():
                         lag_seen[k] = lag_seen.get(k, 0) + v
-                chk.cov['write_fault_then_no_update_stripes'] = {'runs': len(skc), 'rule': 'touchskip: parity write 1 of each level fails (EIO, ENOSPC, short count), the remaining visited stripes need no parity update; io_cache %s' % ('3, 8' if quick else '1, 2, 3, 8, 128')}
+                chk.cov['write_fault_then_no_update_stripes'] = {'runs': len(skc), 'rule': 'touchskip: parity write 1 of each level fails (EIO, ENOSPC, short count), the remaining visited stripes need no parity update; io_cache %s' % ('3, 8' if quick else '1, 3, 4, 8, 128')}
             except Exception as e:
                 chk.violation('setup', 'touchskip scenario cannot be prepared: %s' % e, {}, no_input=True)
         for k in total:
